@@ -16,6 +16,10 @@ CLAIMS = {
  'C08': dict(cat='other', tech='who-may-panic census over the call graph + must-pass-through (record before panic) via path-sensitive MIR interpretation + append-only census',
    text='Decides R08.1-R08.5: every explicit panic site reachable from the mocked-call entry points is induce_panic\'s final panic (or the lock-poison unwrap); on every path of induce_panic (lock wrapper and closure inlined) the error parameter itself is pushed to the shared panic_reasons list under the lock before the diverging call; the list is append-only (construction, that push, a full clone on read); teardown returns the recorded errors before reading any counter and teardown_panic / teardown_report render every element; nothing intercepts panics. Holds for every history and thread placement because it is a property of all paths, not of sampled runs.',
    note='Not decided: thread schedules are not enumerated (the list sits behind MutexIsh, see C10/C11); user-code panics are by construction not recorded. Trusted: rustc MIR, exporter, rule engine, std contracts (Mutex::lock exclusivity, Vec::push/clone).'),
+
+ 'C10': dict(cat='other', tech='atomic-operation census + provenance of positions + interior-mutability census of the type tree (type-level query) + lock-closure census',
+   text='Decides R10.1-R10.5: each position (per-pattern match index, global ordered slot) is the return value of exactly one SeqCst/AcqRel fetch_add(1) on a dedicated atomic and reaches the lookup unchanged; no load/store/CAS on those atomics on the call path (no check-then-act); the only interior mutability reachable from the mock is the two atomics, the MutexIsh lock, the per-instance OnceCells and Send+Sync type-erased boxes; nobody gets &mut to the Arc-shared state; no user code runs under a lock. These are the mechanism that makes every interleaving assign distinct consecutive positions; the suite never runs two threads on one pattern.',
+   note='Not decided: interleavings are not enumerated and no thread is run - the claim is the atomicity mechanism plus the std contract that fetch_add returns each previous value exactly once. Trusted: rustc type information and MIR, exporter, rule engine, std atomics/Mutex contracts.'),
 }
 
 checks = []
